@@ -522,7 +522,7 @@ pub fn check(ctx: &mut Ctx, id: &'static str) {
             for c in ["two-regions-start-on-one-line", "region-not-at-column-0", "ready-child-inside-unwrapped-body", "region-ends-at-eof"] {
                 ctx.require_class(c);
             }
-            ctx.random("ast-documents", 400, 250_000, 2_500_000, |t| gen(t, which), oracle_c15);
+            ctx.random("ast-documents", 400, 250_000, 15_000_000, |t| gen(t, which), oracle_c15);
             ctx.reshrink::<AstCase, _, _>("ast-documents", oracle_c15, crate::props::clean::shrink_ast);
         }
         Which::C16 => {
@@ -530,7 +530,7 @@ pub fn check(ctx: &mut Ctx, id: &'static str) {
             for c in ["first-byte-is-line-break", "tab-left-of-start-marker", "multi-line-region", "pending-item"] {
                 ctx.require_class(c);
             }
-            ctx.random("ast-documents", 400, 200_000, 2_000_000, |t| gen(t, which), oracle_c16);
+            ctx.random("ast-documents", 400, 200_000, 15_000_000, |t| gen(t, which), oracle_c16);
             ctx.reshrink::<AstCase, _, _>("ast-documents", oracle_c16, crate::props::clean::shrink_ast);
         }
         Which::C17 => {
@@ -538,7 +538,7 @@ pub fn check(ctx: &mut Ctx, id: &'static str) {
             for c in ["pending-inside-ready-unwrapped-body", "ready-inside-pending-parent", "pending-inside-ready-region(squashed)", "pending-inside-pending-region(squashed)"] {
                 ctx.require_class(c);
             }
-            ctx.random("ast-documents", 400, 250_000, 2_500_000, |t| gen(t, which), oracle_c17);
+            ctx.random("ast-documents", 400, 250_000, 15_000_000, |t| gen(t, which), oracle_c17);
             ctx.reshrink::<AstCase, _, _>("ast-documents", oracle_c17, crate::props::clean::shrink_ast);
         }
     }
